@@ -110,6 +110,28 @@ def run_tlc(tp, dp, wd, tag, mode="", known="", cfg="Qcow2Env.cfg", spec="Qcow2E
     return recs, gen, dist
 
 
+def tlc_enumerate(spec, cfg=None, env=None, timeout=600):
+    """run a generator specification; returns the JSON values it printed"""
+    cfg = cfg or spec.replace(".tla", ".cfg")
+    e = dict(os.environ, JAVA_TOOL_OPTIONS=JAVA_OPTS)
+    if env:
+        e.update(env)
+    md = os.path.join(VERIF, "work", "gen", "states_" + spec.replace(".tla", ""))
+    os.makedirs(os.path.dirname(md), exist_ok=True)
+    try:
+        p = subprocess.run(["tlc", "-workers", "4", "-metadir", md, "-cleanup", "-noGenerateSpecTE", "-config", cfg, spec],
+                           cwd=SPEC, env=e, stdout=subprocess.PIPE, stderr=subprocess.STDOUT, text=True, timeout=timeout)
+    except subprocess.TimeoutExpired:
+        raise ToolError(f"TLC timeout on generator {spec}")
+    finally:
+        shutil.rmtree(md, ignore_errors=True)
+    recs, gen, dist, ok = parse_tlc(p.stdout)
+    if not recs:
+        log(p.stdout[-2000:])
+        raise ToolError(f"generator {spec} produced nothing")
+    return recs, gen, dist
+
+
 def run_batch(scens, wd, mode="", known="", par=8, chunk=None):
     """run all scenarios (in parallel chunks) and validate; returns a dict
     name -> result"""
@@ -138,16 +160,23 @@ def run_batch(scens, wd, mode="", known="", par=8, chunk=None):
         lines = None
         for sc in chunks[i]:
             results[sc["name"]] = dict(scenario=sc, summary=by.get(sc["name"], {}), viols=[],
-                                       accepted=False, kf=None, reached=None, trace=tp, ri=None)
+                                       accepted=False, kf=None, reached=None, trace=tp, ri=None, pathviols=[], best=None)
         for r in recs:
             if r[0] == "VIOL":
                 results[r[2]]["viols"].append(dict(prop=r[1], line=r[4], detail=r[5]))
             elif r[0] == "ACCEPT":
                 res = results[r[1]]
                 res["accepted"] = True
-                # prefer an accepting path without known-finding deviations
-                if res["kf"] is None or len(r[3]) < len(res["kf"]):
+                res["paths"] = res.get("paths", 0) + 1
+                # one accepting path = one consistent linearization; the run
+                # is judged by its best one (fewest violations, then fewest
+                # known-finding deviations)
+                pv = [dict(prop=v[0], line=v[1], detail=v[2]) for v in r[4]]
+                key = (len(pv), len(r[3]))
+                if res["kf"] is None or key < res["best"]:
                     res["kf"] = r[3]
+                    res["best"] = key
+                    res["pathviols"] = pv
             elif r[0] == "REACHED":
                 results[r[1]]["reached"] = r[3]
                 results[r[1]]["ri"] = r[2]
@@ -160,6 +189,7 @@ def run_batch(scens, wd, mode="", known="", par=8, chunk=None):
         # unexplained lines
         for sc in chunks[i]:
             res = results[sc["name"]]
+            res["viols"] = res["viols"] + res["pathviols"]
             if not res["accepted"] and res["reached"] is not None:
                 if lines is None:
                     with open(tp) as f:
